@@ -63,6 +63,8 @@ type spec struct {
 	retry            string
 	failFirst        int // number of leading attempts answering 502
 	explicitCL       bool
+	h2style          bool // undeclared request length without chunked transfer-encoding (HTTP/2, direct calls)
+	verbose          bool // buffer.Verbose(true) with a formatting logger
 	copyMode         bool // the handler streams its body with io.Copy from a plain reader
 	abort            bool // the handler panics (http.ErrAbortHandler) after writing
 }
@@ -114,6 +116,8 @@ func genSpec(t *rapid.T) *spec {
 		s.reqBody = 0
 	}
 	s.chunked = rapid.Bool().Draw(t, "chunked")
+	s.h2style = s.chunked && rapid.IntRange(0, 2).Draw(t, "h2style") == 0
+	s.verbose = rapid.IntRange(0, 3).Draw(t, "verbose") == 0
 	s.memResp = rapid.SampledFrom([]int64{1, 16, 512, 4096}).Draw(t, "memResp")
 	switch rapid.IntRange(0, 4).Draw(t, "maxRespKind") {
 	case 0:
@@ -166,8 +170,16 @@ func genSpec(t *rapid.T) *spec {
 }
 
 func (s *spec) String() string {
-	return fmt.Sprintf("%s reqBody=%d chunked=%v memReq=%d maxReq=%d | memResp=%d maxResp=%d status=%d writes=%v retry=%q failFirst=%d explicitCL=%v copyMode=%v abort=%v", s.method, s.reqBody, s.chunked, s.memReq, s.maxReq, s.memResp, s.maxResp, s.status, s.writes, s.retry, s.failFirst, s.explicitCL, s.copyMode, s.abort)
+	return fmt.Sprintf("%s reqBody=%d chunked=%v memReq=%d maxReq=%d | memResp=%d maxResp=%d status=%d writes=%v retry=%q failFirst=%d explicitCL=%v copyMode=%v abort=%v h2style=%v verbose=%v", s.method, s.reqBody, s.chunked, s.memReq, s.maxReq, s.memResp, s.maxResp, s.status, s.writes, s.retry, s.failFirst, s.explicitCL, s.copyMode, s.abort, s.h2style, s.verbose)
 }
+
+// formatLogger formats its arguments like a real logger.
+type formatLogger struct{}
+
+func (formatLogger) Debug(f string, a ...interface{}) { _ = fmt.Sprintf(f, a...) }
+func (formatLogger) Info(f string, a ...interface{})  { _ = fmt.Sprintf(f, a...) }
+func (formatLogger) Warn(f string, a ...interface{})  { _ = fmt.Sprintf(f, a...) }
+func (formatLogger) Error(f string, a ...interface{}) { _ = fmt.Sprintf(f, a...) }
 
 type onlyReader struct{ r io.Reader }
 
@@ -246,6 +258,9 @@ func TestC15_LimitsAndTempFiles(t *testing.T) {
 		if s.retry != "" {
 			opts = append(opts, buffer.Retry(s.retry))
 		}
+		if s.verbose {
+			opts = append(opts, buffer.Verbose(true), buffer.Logger(formatLogger{}))
+		}
 		b, err := buffer.New(handler, opts...)
 		if err != nil {
 			t.Fatalf("buffer.New: %v (%s)", err, s)
@@ -254,6 +269,9 @@ func TestC15_LimitsAndTempFiles(t *testing.T) {
 		if s.chunked {
 			req.ContentLength = -1
 			req.TransferEncoding = []string{"chunked"}
+			if s.h2style {
+				req.TransferEncoding = nil
+			}
 		} else {
 			req.ContentLength = int64(s.reqBody)
 		}
